@@ -253,7 +253,8 @@ def entsize_rule(F, rep):
         eq = an.truth(st.facts, T.bin("Eq", p2, size, "usize"))
         if t.op == "agg" and t.args[3] == "Ok":
             okc += 1
-            rep.require(t.args[4][0] is p2 and eq is True, "entsize-validated", "validate_entsize:ok", wh(fn["span"]), "Ok(entsize) iff entsize == size_for(class)",
+            # under the accepted condition entsize == size_for(class) either spelling of the value is the same number
+            rep.require((t.args[4][0] is p2 or t.args[4][0] is size) and eq is True, "entsize-validated", "validate_entsize:ok", wh(fn["span"]), "Ok(entsize) iff entsize == size_for(class)",
                         "validate_entsize accepts under %s and returns %s" % (eq, pp(t)))
         elif t.op == "agg" and t.args[3] == "Err":
             errc += 1
